@@ -401,7 +401,8 @@ def steady_state(
 
     """
     if y0 is not None:
-        model.update_variables(y0)
+        # On a copy, the start values are those of this call only
+        model = copy.deepcopy(model).update_variables(y0)
 
     res = parallelise(
         partial(
@@ -573,7 +574,8 @@ def time_course(
     # We update the initial conditions separately here, because `to_scan` might also
     # contain initial conditions.
     if y0 is not None:
-        model.update_variables(y0)
+        # On a copy, the start values are those of this call only
+        model = copy.deepcopy(model).update_variables(y0)
 
     res = parallelise(
         partial(
@@ -722,7 +724,8 @@ def protocol(
     # We update the initial conditions separately here, because `to_scan` might also
     # contain initial conditions.
     if y0 is not None:
-        model.update_variables(y0)
+        # On a copy, the start values are those of this call only
+        model = copy.deepcopy(model).update_variables(y0)
 
     res = parallelise(
         partial(
@@ -791,7 +794,8 @@ def protocol_time_course(
     # We update the initial conditions separately here, because `to_scan` might also
     # contain initial conditions.
     if y0 is not None:
-        model.update_variables(y0)
+        # On a copy, the start values are those of this call only
+        model = copy.deepcopy(model).update_variables(y0)
 
     res = parallelise(
         partial(
